@@ -45,6 +45,21 @@ theorem pyRound_near_toNat (x : Rat) (n : Nat) (h1 : (n : Rat) - 1/2 < x) (h2 : 
     (by rw [Rat.intCast_natCast]; exact h2)
   rw [this]; simp
 
+theorem pyRoundCount_natCast (n : Nat) : pyRoundCount (n : Rat) = n := by
+  unfold pyRoundCount
+  rw [← Rat.intCast_natCast, pyRound_int]; simp
+
+theorem pyRoundCount_near (x : Rat) (n : Nat) (h1 : (n : Rat) - 1/2 < x) (h2 : x < (n : Rat) + 1/2) :
+    pyRoundCount x = n := pyRound_near_toNat x n h1 h2
+
+/-- a non-negative integral value is the cast of its rounded count -/
+theorem nat_of_int_nonneg_round (q : Rat) (h0 : 0 ≤ q) (hz : ∃ z : Int, q = z) :
+    q = ((pyRoundCount q : Nat) : Rat) := by
+  obtain ⟨z, rfl⟩ := hz
+  have hz0 : (0 : Int) ≤ z := Rat.intCast_nonneg.1 h0
+  unfold pyRoundCount
+  rw [pyRound_int, ← Rat.intCast_natCast, Int.toNat_of_nonneg hz0]
+
 /-! tie cases: to the even neighbour (kernel evaluation, no extra axioms) -/
 example : pyRound (1/2) = 0 := by decide +kernel
 example : pyRound (3/2) = 2 := by decide +kernel
